@@ -23,8 +23,10 @@ def _gs(g):
     from odc.geo.gridspec import GridSpec
     from odc.geo.types import resyx_, xy_
 
-    return GridSpec(CRS_A, (g["ny"], g["nx"]), resyx_(g["ry"] / S, g["rx"] / S), origin=xy_(g["ox"] / S, g["oy"] / S),
-                    flipx=g["fx"], flipy=g["fy"])
+    kw = {"origin": xy_(g["ox"] / S, g["oy"] / S)}
+    if g["ox"] == 0 and g["oy"] == 0 and (g["nx"] + g["ny"] + (1 if g["fx"] else 0)) % 2 == 0:
+        kw = {}           # the default origin is (0, 0)
+    return GridSpec(CRS_A, (g["ny"], g["nx"]), resyx_(g["ry"] / S, g["rx"] / S), flipx=g["fx"], flipy=g["fy"], **kw)
 
 
 def _gb(gb):
@@ -79,11 +81,30 @@ def execute(c):
                     i = gs.pt2idx(x / S, y / S)
                     pts.append({"p": [x, y], "i": [int(i.x), int(i.y)], "t": _gb(gs[i])})
             ev["pts"] = pts
+            # derived attributes: alignment = origin modulo pixel size (y, x); a grid equals a grid built from the same parameters, nothing else
+            al = gs.alignment
+            want = ((g["oy"] / S) % abs(g["ry"] / S), (g["ox"] / S) % abs(g["rx"] / S))
+            if abs(al.y - want[0]) > 1e-9 or abs(al.x - want[1]) > 1e-9:
+                ev["outcome"] = "alignment_is_not_origin_modulo_pixel_size"
+            if not (gs == _gs(g)) or gs == "gridspec" or gs == _gs(dict(g, ox=g["ox"] + 1)):
+                ev["outcome"] = "gridspec_equality_or_hash_inconsistent"
         elif op in ("bbox", "poly"):
             if op == "bbox":
                 q = c["q"]
                 x0, y0, x1, y1 = q
-                out = [list(map(int, i)) for i, _ in gs.tiles(G.BoundingBox(x0 / S, y0 / S, x1 / S, y1 / S, CRS_A))]
+                bb = G.BoundingBox(x0 / S, y0 / S, x1 / S, y1 / S, CRS_A)
+                res = list(gs.tiles(bb))
+                out = [list(map(int, i)) for i, _ in res]
+                # every returned GeoBox is the tile of that index; a caller-supplied cache and the GeoJSON listing give the same tiles
+                cache = {}
+                res2 = list(gs.tiles(bb, geobox_cache=cache)) + list(gs.tiles(bb, geobox_cache=cache))
+                feats = gs.geojson(bbox=bb)["features"]
+                if any(_gb(gb) != _gb(gs[i]) for i, gb in res + res2):
+                    ev["outcome"] = "tiles_query_returned_a_geobox_that_is_not_the_tile_of_its_index"
+                elif sorted(out + out) != sorted(list(map(int, i)) for i, _ in res2) or sorted(cache) != sorted(tuple(i) for i in out):
+                    ev["outcome"] = "tiles_query_with_a_geobox_cache_differs"
+                elif sorted(f["properties"]["idx"] for f in feats) != sorted(f"{i[0]},{i[1]}" for i in out):
+                    ev["outcome"] = "geojson_listing_differs_from_the_tiles_query"
             else:
                 xs, ys = [p[0] for p in c["q"]], [p[1] for p in c["q"]]
                 x0, y0, x1, y1 = min(xs), min(ys), max(xs), max(ys)
